@@ -590,6 +590,9 @@ def fam_projections(seed=0, n=12, sizes=(4, 5, 6)):
             pairs = [(i, na - 1 - i, 'w') for i in range(na)]
         else:
             pairs = [(i, (i + 1) % na, 'u') for i in range(na)] + [(i, (i - 1) % na, 'w') for i in range(na)]
+        if k % 2 and pat in ('perm_fixed_ends', 'perm', 'reverse', 'two_rings'):
+            # the same projection written down in the order of its TARGETS: the source indices are then a permutation
+            pairs = sorted(pairs, key=lambda p_: (p_[2], p_[1]))
         edges = [EdgeSpec(f"a{i}/o1/x", f"a{j}/o1/{v}", fp()) for i, j, v in pairs]
         if k % 3 == 2:
             # plus a node that is the only one of its type and projects to every node of the group (scalar source)
